@@ -40,11 +40,7 @@ type zvConn struct {
 }
 
 func (c *zvConn) Read(p []byte) (int, error) {
-	vsched.Do(vsched.KIO, fmt.Sprintf("conn%d.Read", c.id), func() bool {
-		c.mu.Lock()
-		defer c.mu.Unlock()
-		return len(c.in) > 0 || c.eof || c.closed || c.readErr != nil
-	}, nil)
+	vsched.DoObj(vsched.KIO, fmt.Sprintf("conn%d.Read", c.id), c)
 	c.mu.Lock()
 	defer c.mu.Unlock()
 	if c.closed {
@@ -60,6 +56,17 @@ func (c *zvConn) Read(p []byte) (int, error) {
 	}
 	return 0, io.EOF
 }
+
+// OpEnabled is evaluated by the scheduler's controller goroutine (readable?). It is //go:norace and takes no lock so that
+// it neither shows up in nor feeds happens-before edges to the race detector; the cooperative scheduler serialises it.
+//
+//go:norace
+func (c *zvConn) OpEnabled(int) bool {
+	return len(c.in) > 0 || c.eof || c.closed || c.readErr != nil
+}
+
+//go:norace
+func (c *zvConn) OpApply(int) {}
 
 func (c *zvConn) Write(p []byte) (int, error) {
 	c.mu.Lock()
